@@ -240,7 +240,7 @@ for _k in SRCS:
     for _wi in (0, 1):
         CELLS.append(Cell(f'P1.walk2[{_k},{WALKS[_wi] or "default"}]', _mk_walk(_k, _wi, True), 'P', FNW,
                           f'carrier {_k}; walk({WALKS[_wi]}); TWO mutation events at k1 < k2, each any of {len(ACTIONS)} actions and 3 send values (symbolic)',
-                          tier='thorough', budget=3000, per_path=60, reset=pc.reset_globals))
+                          tier='thorough', budget=900, per_path=60, reset=pc.reset_globals))
 for _k, _st, _wi in (('lists', 'value0', 0), ('lists', 'value0', 4), ('lists', 'value0', 3), ('calls', 'value0', 4), ('comps', 'stmt0', 6), ('comps', 'stmt0', 0), ('mixed', 'stmt0', 3), ('boolops', 'value0', 4)):
     CELLS.append(Cell(f'P1.walk[{_k},{WALKS[_wi] or "default"},from={_st}]', _mk_walk(_k, _wi, False, _st), 'P', FNW,
                       f'carrier {_k}; walk({WALKS[_wi]}) started at a NON-root node ({_st}), so the walk root itself can be replaced / removed when yielded; one mutation event as above',
